@@ -150,7 +150,7 @@ func init() {
 		step("store.Save", w.callsTo(f, "state#Store.Save"), commitOK, saveRespOK)
 		step("fireEvents", w.callsTo(f, "state#fireEvents"), saveOK)
 		// success return only after the state was saved
-		okRet := c.ge().ensures(f, saveOK, 0)
+		okRet := c.ge().ensures(f, saveOK, 2)
 		c.Check(okRet, fk+" :: nil error only after store.Save = nil", w.pos(f.Pos()), "every success return is behind the state save", "ApplyBlock can return success without having saved the state")
 		// responses saved are those of this execution, under this block's height
 		for _, s := range w.callsTo(f, "state#Store.SaveABCIResponses") {
@@ -230,7 +230,7 @@ func init() {
 				c.Check(strings.HasSuffix(hv, ".Header.Height") || strings.HasSuffix(hv, ".Height"), fk+" :: EndBlock height is the block's", w.ipos(e), "height = "+hv, "EndBlock height is "+hv)
 			}
 			// success return only after EndBlock succeeded
-			c.Check(c.ge().ensures(f, guardCallOK("EndBlockSync = nil", "proxy#AppConnConsensus.EndBlockSync"), 0), fk+" :: success only after EndBlock", w.pos(f.Pos()), "nil error implies EndBlockSync = nil", "execution reports success without EndBlock having succeeded")
+			c.Check(c.ge().ensures(f, guardCallOK("EndBlockSync = nil", "proxy#AppConnConsensus.EndBlockSync"), 2), fk+" :: success only after EndBlock", w.pos(f.Pos()), "nil error implies EndBlockSync = nil", "execution reports success without EndBlock having succeeded")
 			// no commit reachable from the execution function
 			may := w.mayCallDeep(3, "proxy#AppConnConsensus.CommitSync")
 			commits := 0
